@@ -34,13 +34,15 @@ TRUSTED = [
     "dask.core.get evaluates a key by evaluating the keys its task refers to (Graph.lean `run`)",
 ]
 PARTIAL = [
-    "C14_task assumes a nested Fused member only in first position (fusedOK); that the pass never makes a Fused a "
-    "non-first member is established by the proven run-time checker on every real group (family native_groups), not by proof",
+    "C14_task is proven for every Fused node accepted by the decidable checker fusedOK (nested groups at any position and "
+    "depth; a nested group must have the partition count of the enclosing one); that the Fused nodes the pass builds "
+    "satisfy fusedOK is established by running the checker on every real Fused node (family native_groups), not by proof",
     "divisions/meta of Fused = those of exprs[0] is definitional in the model; tied by the families and the search",
+    "C14_substitute (values of other consumers unchanged by the substitution) is not stated separately",
 ]
 EXPLANATION = (
     "Model: _fusion_pass (dependents/dependencies maps, roots, DFS with stack/group name sets, npartitions/broadcast "
-    "test, new-root rule, first group with len>1), the outer loop, substitute, Fused._task with nested groups. "
+    "test, new-root rule, first group with len>1), the outer loop, substitute, Fused._task with nested groups at any position (merged without their dependency placeholders). "
     "Theorems: every group of the pass is GroupOK (C14_group_ok), the fused sub-graph computes what the unfused member "
     "tasks compute for every interpretation (C14_task), meta (C14_meta), each successful pass strictly decreases the "
     "number of reachable blockwise nodes (C14_terminates). Tie: real groups / plans / sub-graphs vs model on enumerated "
@@ -340,6 +342,9 @@ def real_queries():
             "nested_dep_member": lambda d: (lambda s: (d + (2 + s)).optimize() + s)(1 - d.sum()),
             "nested_dep_member2": lambda d: (lambda s: (d * (s + 2)).optimize() - s)(d.sum() * 3),
             "nested_dep_member3": lambda d: (lambda s: (lambda f2: (f2 + s) * f2)((d - (s * 2)).optimize()))(d.max() + 1),
+            # a one-partition (scalar) optimised collection broadcast into an n-partition group
+            "nested_bcast_scalar": lambda d: d.a + ((d.a.sum() + 1) * 2).optimize(),
+            "nested_bcast_scalar2": lambda d: d[["a", "b"]] * ((d.a.sum() + 1) * 2).optimize() + 1,
             "nested_plain": lambda d: d.b + ((d.a - d.b) + 1).optimize(),
             "nested_twice": lambda d: ((d.a + 1).optimize() * d.b).optimize() - d.a,
             "bcast_two": lambda d: (d + d.sum()) * (d.max() + 1),
@@ -592,7 +597,7 @@ def fam_native(ctx):
             for e in pf.exprs:
                 if isinstance(e, Fused):
                     reqs.append(f"fusion check dag={pf.text} node={pf.id(e)}")
-                    want.append("OK" if not any(isinstance(m, Fused) for m in e.exprs[1:]) else "OK-order")
+                    want.append("OK")
                     inputs.append({"case": str(label), "check": "fused", "plan": pf.text, "node": pf.id(e)})
     model = drive(reqs)
     f.compare(inputs, want, model)
